@@ -714,9 +714,11 @@ def _factor_mixed_prefactors(result: e.Expr, terms: list[e.Term], itmd_cls,
 def _build_factored_term(remainder: e.Expr, pref, itmd_cls,
                          itmd_indices) -> e.Expr:
     """Builds the factored term."""
+    # the tensor might be returned with a prefactor of -1 if the indices
+    # are not in canonical order
     tensor = itmd_cls.tensor(indices=itmd_indices, return_sympy=True)
     # resolve the Zero placeholder for residuals
-    if tensor.name == "Zero":
+    if any(t.name == "Zero" for t in tensor.atoms(SymbolicTensor)):
         return e.Expr(0, **remainder.assumptions)
     return remainder * pref * tensor
 
